@@ -88,6 +88,23 @@ static void add_windows(nset* S, int kind, const uint8_t* b, int len, int win) {
         if (!allzero) add(S, kind, b + i, win);
     }
 }
+/* the secret in the shapes that word-wise processing leaves behind: 8- and 4-byte groups loaded big-endian (bytes
+ * reversed within the group, at every starting offset), and the bit string shifted by 1..7 bits (re-packing into
+ * 10-bit shares walks through such intermediate values) */
+static void add_secret_transforms(nset* S, const uint8_t* sec, int len) {
+    uint8_t b[8];
+    for (int i = 0; i + 8 <= len; ++i) {
+        bool zero = true; for (int k = 0; k < 8; ++k) if (sec[i + k]) zero = false;
+        if (zero) continue;
+        for (int k = 0; k < 8; ++k) b[k] = sec[i + 7 - k]; add(S, N_SECRET, b, 8);                                   /* one reversed 8-byte group */
+        for (int k = 0; k < 4; ++k) { b[k] = sec[i + 3 - k]; b[4 + k] = sec[i + 7 - k]; } add(S, N_SECRET, b, 8);     /* two reversed 4-byte groups */
+    }
+    for (int sh = 1; sh < 8; ++sh) for (int i = 0; i + 9 <= len; i += 2) {
+        for (int k = 0; k < 8; ++k) b[k] = (uint8_t)((sec[i + k] << sh) | (sec[i + k + 1] >> (8 - sh)));
+        bool zero = true; for (int k = 0; k < 8; ++k) if (b[k]) zero = false;
+        if (!zero) add(S, N_SECRET, b, 8);
+    }
+}
 static void add_phrase(nset* S, const char* phrase_nfkd_spaces) {
     /* tokens of >= 6 bytes and adjacent pairs joined by ' ', NUL, U+3000 — in NFKD and NFC form */
     for (int form = 0; form < 2; ++form) {
@@ -220,14 +237,14 @@ static bool build(const shape* sh, pv_rng* r, job* j, nset* S) {
         pv_w->time_value = pv_m_birthday_time(m.birthday) + 5;
         j->features = sh->path == P_UNSUPPORTED ? 4 : m.features;
         m.features = j->features & 7; pv_m_pack(&m, c);
-        add_windows(S, N_SECRET, m.secret, 19, 8);
+        add_windows(S, N_SECRET, m.secret, 19, 8); add_secret_transforms(S, m.secret, 19);
         if (sh->path == P_OK) add_coeffs(S, c, c);
         return true; }
     case A_ENCODE: case A_KEYGEN: case A_STORE: case A_FREE: case A_GETTERS: case A_CRYPT: {
         if (sh->path != P_OK) return false;
         j->seed = pv_seed_from_model(&m);
         if (!j->seed) pv_fatal("C16: cannot load seed");
-        add_windows(S, N_SECRET, m.secret, 19, 8);
+        add_windows(S, N_SECRET, m.secret, 19, 8); add_secret_transforms(S, m.secret, 19);
         if (sh->api == A_ENCODE) {
             j->out_str = malloc(POLYSEED_STR_SIZE);
             char ph[2048]; pv_m_join_space(L, d, ph, sizeof ph);
@@ -253,7 +270,7 @@ static bool build(const shape* sh, pv_rng* r, job* j, nset* S) {
             pv_w->kdf_mode = 1; pv_randbytes(r, pv_w->kdf_mask, 32);
             add_windows(S, N_MASK, pv_w->kdf_mask, 32, 8);
             pv_mseed e = m; pv_m_crypt(&e, pv_w->kdf_mask);
-            add_windows(S, N_SECRET, e.secret, 19, 8);
+            add_windows(S, N_SECRET, e.secret, 19, 8); add_secret_transforms(S, e.secret, 19);
             unsigned ce[16]; pv_m_pack(&e, ce); add_coeffs(S, ce, ce);
         }
         return true; }
@@ -264,7 +281,7 @@ static bool build(const shape* sh, pv_rng* r, job* j, nset* S) {
         else if (sh->path == P_CHECKSUM) j->buf32[30] ^= 1;
         else if (sh->path == P_UNSUPPORTED || sh->path == P_OK || sh->path == P_MEMORY) { }
         else return false;
-        add_windows(S, N_SECRET, m.secret, 19, 8);
+        add_windows(S, N_SECRET, m.secret, 19, 8); add_secret_transforms(S, m.secret, 19);
         if (sh->path != P_FORMAT && sh->path != P_MEMORY) add_coeffs(S, c, c);
         return true; }
     case A_DECODE: case A_DECODE_EXPLICIT: {
@@ -288,7 +305,7 @@ static bool build(const shape* sh, pv_rng* r, job* j, nset* S) {
         add_phrase(S, nfk);
         if (sh->path != P_NUM_WORDS) add_coeffs(S, d, sh->path == P_CHECKSUM ? d : c);
         if (sh->path != P_NUM_WORDS && sh->path != P_LANG) add_wordptrs(S, L, d);
-        if (sh->path == P_OK || sh->path == P_UNSUPPORTED) add_windows(S, N_SECRET, m.secret, 19, 8);
+        if (sh->path == P_OK || sh->path == P_UNSUPPORTED) { add_windows(S, N_SECRET, m.secret, 19, 8); add_secret_transforms(S, m.secret, 19); }
         return true; }
     }
     return false;
